@@ -84,6 +84,9 @@ func zeroValue(rv reflect.Value) bool {
 	return false
 }
 
+// c14Str is a named string type (kind string), as generated enum models use.
+type c14Str string
+
 type c14Struct struct {
 	A int
 	B string
@@ -91,7 +94,9 @@ type c14Struct struct {
 }
 
 func (p *c14) anyValue(r *lib.Rand, depth int) any {
-	switch r.Intn(22) {
+	switch r.Intn(24) {
+	case 22, 23:
+		return c14Str(c14Strings[r.Intn(len(c14Strings))])
 	case 0:
 		return nil
 	case 1:
@@ -245,7 +250,11 @@ func (p *c14) Run(w *lib.Worker, idx int, r *lib.Rand) lib.Case {
 			list[r.Intn(n)] = data
 		}
 		enum = list
-		switch r.Intn(8) {
+		switch r.Intn(10) {
+		case 8:
+			enum = []c14Str{"foo", "FOO", "é"}
+		case 9:
+			enum = []interface{}{c14Str("Foo"), "abc", c14Str("ß")}
 		case 0:
 			enum = []string{"foo", "é", "K"}
 		case 1:
@@ -271,8 +280,8 @@ func (p *c14) Run(w *lib.Worker, idx int, r *lib.Rand) lib.Case {
 					want = true
 				}
 				if !caseSensitive {
-					ds, dok := data.(string)
-					es, eok := e.(string)
+					ds, dok := stringKind(data)
+					es, eok := stringKind(e)
 					if dok && eok && strings.EqualFold(ds, es) {
 						want = true
 					}
@@ -412,4 +421,13 @@ func (p *c14) Finish(a *lib.Aggregate) (broken []string) {
 		}
 	}
 	return
+}
+
+// stringKind returns the text of any value whose kind is string (named string types included).
+func stringKind(v any) (string, bool) {
+	rv := reflect.ValueOf(v)
+	if rv.IsValid() && rv.Kind() == reflect.String {
+		return rv.String(), true
+	}
+	return "", false
 }
